@@ -20,6 +20,9 @@ type commandExecutor struct {
 	// prevented is set when a stop request reaches the executor before its
 	// process was started: Run then starts nothing.
 	prevented bool
+	// finished is set when the process has been waited for: its pid must not
+	// be signalled any more
+	finished bool
 }
 
 var errStartPrevented = errors.New("not started: the run is being stopped")
@@ -64,7 +67,11 @@ func (e *commandExecutor) Run() error {
 	if err != nil {
 		return err
 	}
-	return e.cmd.Wait()
+	err = e.cmd.Wait()
+	e.lock.Lock()
+	e.finished = true
+	e.lock.Unlock()
+	return err
 }
 
 func (e *commandExecutor) SetStdout(out io.Writer) {
@@ -81,6 +88,9 @@ func (e *commandExecutor) Kill(sig os.Signal) error {
 	if e.cmd == nil || e.cmd.Process == nil {
 		// nothing to signal yet: make sure nothing is started later
 		e.prevented = true
+		return nil
+	}
+	if e.finished {
 		return nil
 	}
 	return syscall.Kill(-e.cmd.Process.Pid, sig.(syscall.Signal))
